@@ -168,6 +168,8 @@ def rule_b3(ctx: Ctx) -> None:
         if isinstance(st, ast.Assign) and isinstance(st.targets[0], ast.Tuple) and isinstance(st.value, ast.Tuple):
             for t, v in zip(st.targets[0].elts, st.value.elts):
                 env[unparse(t)] = unparse(v)
+        elif isinstance(st, ast.Assign) and len(st.targets) == 1 and isinstance(st.targets[0], ast.Name):
+            env[st.targets[0].id] = unparse(st.value)
     n_name = [k for k, v in env.items() if v == "len(self)"]
     n_txt = n_name[0] if n_name else "len(self)"
     found = {}
